@@ -322,3 +322,120 @@ def setitem_stream(run, drv):
             run.oracle_fail("setitem", case, f"content {str(tl)[:150]} expected {str(want)[:150]}", fingerprint="write:modelled:content")
         else:
             run.oracle_ok("setitem")
+
+
+# --------------------------------------------------------------------------- reshape / view / flatten / unflatten / split / chunk
+def _factorisations(n, rng, max_rank=3):
+    """a random shape (dims >= 1) with `n` elements"""
+    dims = []
+    rest = n
+    for _ in range(rng.randint(1, max_rank) - 1):
+        divs = [d for d in range(1, rest + 1) if rest % d == 0]
+        d = rng.choice(divs)
+        dims.append(d)
+        rest //= d
+    dims.append(rest)
+    rng.shuffle(dims)
+    return dims
+
+
+def reshape_stream(run, drv):
+    """`td.reshape(shape)` / `entry.view(shape)` / `td.flatten` / `td.unflatten` / `td.split` / `td.chunk` on holders: the
+    REPRESENTATION of the resulting entry against the model (`reshapeNT`, `viewNT`, `splitNT`, `chunk`), the content
+    against numpy (row-major)."""
+    n = 1500 if run.tier == "quick" else 10000
+    reqs, pend = [], []
+    for _ in range(n):
+        shape, a, spec = gen_case(run)
+        rank = len(shape)
+        if not rank:
+            continue
+        numel = int(np.prod(shape))
+        td = N.holder(spec, shape, N.pick_device(run.rng))
+        r = run.rng.random()
+        if r < 0.45:
+            target = _factorisations(numel, run.rng) if run.rng.random() < 0.8 else list(shape)
+            name, arg = "reshape", target
+            # (TensorDict.reshape returns the holder itself for its own shape: that case is asked of the entry, which is what the model is)
+            f = (lambda t, target=target: t.get("a").reshape(*target)) if target == list(shape) else (lambda t, target=target: t.reshape(*target).get("a"))  # noqa: E731
+            req = sx("c16.reshape", N.to_sx(spec), target)
+            want_fn = lambda a=a, target=target: nested(a.reshape(target))     # noqa: E731
+        elif r < 0.6:
+            target = _factorisations(numel, run.rng)
+            name, arg = "view", target
+            f = lambda t, target=target: t.get("a").view(*target)              # noqa: E731
+            req = sx("c16.view", N.to_sx(spec), target)
+            want_fn = lambda a=a, target=target: nested(a.reshape(target))     # noqa: E731
+        elif r < 0.7 and rank >= 2:
+            i = run.rng.randrange(rank - 1)
+            j = run.rng.randrange(i + 1, rank)
+            target = shape[:i] + [int(np.prod(shape[i:j + 1]))] + shape[j + 1:]
+            name, arg = "flatten", (i, j)
+            f = lambda t, i=i, j=j: t.flatten(i, j).get("a")                    # noqa: E731
+            req = sx("c16.reshape", N.to_sx(spec), target)
+            want_fn = lambda a=a, target=target: nested(a.reshape(target))     # noqa: E731
+        elif r < 0.8:
+            d = run.rng.randrange(rank)
+            sizes = _factorisations(shape[d], run.rng)
+            target = shape[:d] + sizes + shape[d + 1:]
+            name, arg = "unflatten", (d, tuple(sizes))
+            f = lambda t, d=d, sizes=sizes: t.unflatten(d, sizes).get("a")      # noqa: E731
+            req = sx("c16.reshape", N.to_sx(spec), target)
+            want_fn = lambda a=a, target=target: nested(a.reshape(target))     # noqa: E731
+        elif r < 0.9:
+            d = run.rng.randrange(rank)
+            size = run.rng.randint(1, shape[d] + 1)
+            name, arg = "split", (size, d)
+            f = lambda t, size=size, d=d: [x.get("a") for x in t.split(size, d)]   # noqa: E731
+            req = sx("c16.split", N.to_sx(spec), size, d)
+            want_fn = lambda a=a, size=size, d=d: [nested(x) for x in np.split(a, list(range(size, a.shape[d], size)), axis=d)]  # noqa: E731
+        else:
+            d = run.rng.randrange(rank)
+            k = run.rng.randint(1, shape[d] + 1)
+            name, arg = "chunk", (k, d)
+            f = lambda t, k=k, d=d: [x.get("a") for x in t.chunk(k, d)]          # noqa: E731
+            req = sx("c16.chunk", N.to_sx(spec), k, d)
+
+            def want_fn(a=a, k=k, d=d):
+                size = -(-a.shape[d] // k)
+                return [nested(x) for x in np.split(a, list(range(size, a.shape[d], size)), axis=d)]
+        case = {"op": name, "arg": str(arg), "spec": str(spec)}
+        try:
+            with time_limit(10):
+                res = f(td)
+                if isinstance(res, list):
+                    impl = ["ok", [N.read(x) for x in res]]
+                    tl = [N.tolist_ids(x) for x in res]
+                else:
+                    impl = ["ok", N.read(res)]
+                    tl = N.tolist_ids(res)
+        except TimeoutError:
+            raise
+        except Exception as ex:  # noqa: BLE001
+            impl = ["err", impl_err(ex), str(ex)[:80]]
+            tl = None
+        run.case(("reshape-family", name, str(arg), str(spec)), nontrivial=has_stack(spec))
+        run.count("reshape.op", name)
+        reqs.append(req)
+        pend.append((case, name, impl, tl, want_fn))
+    for (case, name, impl, tl, want_fn), ans in zip(pend, ask(drv, reqs)):
+        m = parse_sx(ans)
+        if name in ("split", "chunk"):
+            model = ["ok", [N.from_parsed(x) for x in m]]
+        elif m[0] == "ok":
+            model = ["ok", N.from_parsed(m[1])]
+        else:
+            model = ["err"]
+        got = impl[:2] if impl[0] == "ok" else ["err"]
+        run.corr(f"{name}(representation)", case, got, model)
+        if impl[0] != "ok":
+            if name == "view":
+                run.count("reshape.view_raises", impl[1])          # view may refuse (not a view of a lazy stack): the model says when
+                continue
+            run.oracle_fail(name, case, f"raises {impl[2]}", fingerprint=f"{name}:raises:{impl[1]}")
+            continue
+        want = want_fn()
+        if tl != want:
+            run.oracle_fail(name, case, f"content {str(tl)[:150]} expected {str(want)[:150]}", fingerprint=f"{name}:content")
+        else:
+            run.oracle_ok(name)
